@@ -13,9 +13,9 @@ from odxgen import refpdu, sexp
 from odxgen import values as V
 
 ID = "C05"
-LEAN_TARGETS = ["OdxVerif.Model.Decode"]
+LEAN_TARGETS = ["OdxVerif.Props.C05"]
 DRIVERS = ["drv_codec"]
-THEOREMS = []
+THEOREMS = ["OdxVerif.Codec." + t for t in ["C05_error_classes", "C05_never_foreign", "C05_no_invention", "C05_truncated_rejected"]]
 RULE = ("direct oracle (model-free fuzz): for every generated description (odxgen, through the XML loader) and for every layer of the shipped "
         "examples/somersault.pdx (DiagLayer.decode, decode_response, every Request/Response.decode, DiagService.decode_message): byte strings = "
         "own encodings, every proper prefix of them, single-byte mutations, deletions, extensions, all strings of length <= 2 (quick) / 3 "
@@ -25,9 +25,10 @@ RULE = ("direct oracle (model-free fuzz): for every generated description (odxge
         "non-trivial = the byte string is not an unmodified own encoding")
 TRUSTED = ["positions of described objects in static layouts: harness/odxgen/refpdu.py (written from the ODX positional rules)",
            "the 5 s wall-clock guard (SIGALRM) decides 'does not terminate'; a hang is re-run once"]
-ASSUMPTIONS = ["model totality by construction (Lean functions are total; loops carry fuel): the C05 theorems (fuel suffices / only decode errors / no "
-               "invention) are pending in lean/OdxVerif/Props/C05.lean — this check lists no theorem yet and decides by the direct oracle plus the "
-               "correspondence with `(decode …)` of drv_codec",
+ASSUMPTIONS = ["model totality by construction (Lean functions are total; loops carry fuel; a loop that runs out of fuel is `unmodelled` and is decided "
+               "by the 5 s guard on the real code); C05_error_classes / C05_never_foreign hold for the whole modelled description language, "
+               "C05_no_invention / C05_truncated_rejected for the atomic tier — the composite tier of 'no invented values' is decided by the "
+               "direct oracle (static layouts, re-encoding criterion) and the correspondence with `(decode …)` of drv_codec",
                "'the library's decode error' = DecodeError and its subclass DecodeMismatch; a plain OdxError or EncodeError escaping from decode is a violation",
                "trailing bytes behind the last described object may be ignored by a Request/Response/Structure decode (the statement does not forbid it)",
                "descriptions are well-formed (odxgen envelope): field items have positive length except in the corpus witnesses",
@@ -207,6 +208,22 @@ def corpus():
     out.append(("mux-no-case", rq(val("m", mux)), ["2200", "2202ff", "22ff"], ["mux", "no-applicable-case"]))
     dl = D.DynLenField(1, 0, None, u8(), D.Struct([val("a", u8(16))]))
     out.append(("dyn-length-huge-count", rq(val("f", dl)), ["22ff", "22ff0001", "2280" + "00" * 8], ["dyn-length-field", "count-beyond-pdu"]))
+    for bt in ("A_UINT32", "A_BYTEFIELD"):
+        # well-formed condensed BIT-MASKs (all mask bits inside BIT-LENGTH) decode; a mask wider than the object is a malformed
+        # description (e.g. 8 bit, mask 0x180: OverflowError in __unapply_mask) and outside the envelope, see design_notes/C05.md
+        cm = D.SimpleDop(D.Std(bt, 16, None, None, mask=0x0F0F, condensed=True), bt)
+        out.append((f"condensed-bit-mask-{bt}", rq(val("c", cm), val("y", u8())), ["22030405", "22ffff05", "2203", "22"], ["condensed-bit-mask"]))
+    # reported by an independent agent, confirmed: float internal type, integer physical type, NaN/Inf bit patterns
+    for bt, n, pats in (("A_FLOAT32", 32, ["7fc00000", "7f800000", "ff800000", "3f800000", "7f7fffff", "00000001"]),
+                        ("A_FLOAT64", 64, ["7ff8000000000000", "7ff0000000000000", "fff0000000000000", "7fefffffffffffff", "3ff0000000000000"])):
+        for phys, cm in (("A_INT32", D.Linear(0, 1, 1)), ("A_UINT32", D.Linear(0, 2, 1)), ("A_INT32", D.Linear(1, 3, 2, (0, "CLOSED"), (100, "CLOSED")))):
+            fl = D.SimpleDop(D.Std(bt, n), phys, cm)
+            out.append((f"float-internal-int-physical-{bt}-{phys}-{cm.num1}", rq(val("x", fl), val("y", u8())), ["22" + x + "01" for x in pats] + ["22" + pats[0]],
+                        ["float-internal", "non-finite"]))
+    # and a counted field whose items consume nothing: the count comes from the PDU
+    dl0 = D.DynLenField(4, 0, None, u8(32), D.Struct([]))
+    out.append(("dyn-length-field-empty-item", rq(val("f", dl0)), ["22ffffffff", "2200100000", "2200000003", "2200000000", "22000000"],
+                ["dyn-length-field", "item-consumes-nothing"]))
     lead = D.SimpleDop(D.Leading("A_BYTEFIELD", 16), "A_BYTEFIELD")
     out.append(("leading-length-beyond-pdu", rq(val("b", lead)), ["22ffff", "22ffff00", "220001"], ["leading", "length-beyond-pdu"]))
     return out
@@ -412,7 +429,7 @@ def run(ctx):
                 run_.case(c, L[c.name], b, fam, need, None, False, invention=k is not None, shrink=False, corr=(fam in ("own", "prefix", "random") or big))
         run_.corr.flush()
     # (d) random composites
-    n_docs = 5200 if big else 420
+    n_docs = 4200 if big else 1000
     for i in range(n_docs):
         prof = (G.THOROUGH if big else G.QUICK) if i % 3 else (G.SIMPLE_DEEP if big else G.SIMPLE)
         try:
